@@ -58,7 +58,7 @@ PROPS = {
     "C07": {"modules": [P + "C07"], "streams": ["dist", "fit", "select"], "relevant": {"dist": None}},
     "C09": {"modules": [P + "C09"], "streams": ["fit", "semi", "knnpred"], "relevant": {"predict": [0], "knnq": None}},
     "C15": {"modules": [P + "C15"], "streams": ["semi"], "relevant": {"fit": [0, 1, 2, 3, 4, 5, 6], "lawfit": None}},
-    "C16": {"modules": [P + "C16", P + "C16Cut"], "streams": ["select"], "relevant": {"selmax": None, "selcut": None, "ncut": None}},
+    "C16": {"modules": [P + "C16", P + "C16Cut", P + "C16Pipeline"], "streams": ["select"], "relevant": {"selmax": None, "selcut": None, "ncut": None, "unsfit": None, "knnfit": None}},
     "C10": {"modules": [P + "C10"], "streams": ["precomp", "fit"], "relevant": {"fit": [0, 1, 2, 3, 5], "predict": [0]}},
     "C11": {"modules": [P + "C11Map", P + "C11Family", P + "C11Perm", P + "C11Registry"], "streams": ["c11", "fit"], "relevant": {"fit": [0, 1, 2, 3, 5], "predict": [0]}},
     "C17": {"modules": [P + "C17"], "streams": ["learn", "fit"], "relevant": {"swap": None, "best": None, "prune": None, "predict": [1]}},
